@@ -102,6 +102,14 @@ CHECKS.update({
    design="6 C16"),
 })
 
+CHECKS.update({
+ "C06": dict(
+   text="Lean theorems: the statements entering call k of a history are the class blocks plus the inline block of that very call - replacing the inline blocks of all other calls leaves them unchanged (inline_once; that the with-block itself leaves no scope behind is C16.randomizeWith_idle); used as a term, a reference to a dynamic block denotes the conjunction of the block's statements (dynE_truthy) and composes as a Boolean: over one-bit terms a() & b() holds iff both hold, a() | b() iff one holds, ~a() iff it does not (dyn_and, dyn_or, dyn_not, from the reference semantics of the bitwise operators at width 1). Tied on generated classes with always-on and dynamic blocks, 1-3 live instances and call sequences mixing randomize()/randomize_with(): per call the statements that enter (unreferenced dynamic blocks absent, the previous call's inline block absent), rand sets, every lowered formula with variables named by field, values; oracles: reference semantics on the returned values, exhaustive satisfiability, no other instance changes.",
+   note=TB + "Holds on the tree after repair 358ca34 (F05: references bound to the newest instance); the check reports violations when that commit is reverted. Which block a reference denotes is resolved by name in the harness (the class's block of that name) - the binding to the instance is tied through variable names in the compared formulas and the 'no other instance changes' oracle, not a theorem. Not generated: references through lists of objects, instances created between calls.",
+   technique="Lean 4 proof + trace-level differential correspondence on generated call sequences over several instances",
+   design="6 C06"),
+})
+
 def main():
     checks = []
     for pid in ALL:
